@@ -83,7 +83,7 @@ pub fn instances() -> Vec<Inst> {
     for t in ["$0", "$12", "$007"] {
         v.push(inst(t, "HARDWAREIDENT"));
     }
-    for t in ["\"01\"", "'01'", "\"0_1\"", "\"1\"", "'1111_0000'"] {
+    for t in ["\"01\"", "'01'", "\"0_1\"", "\"1\"", "'1111_0000'", "\"1_0_1\"", "'1_0_1_0'", "\"10_01_11_00\""] {
         v.push(inst(t, "BIT_STRING"));
     }
     for t in ["\"abc\"", "\"a\\\"b\"", "'a b'", "\"stdgates.inc\"", "\"é😀\"", "\"012\"", "'a\\'b'", "'\\''", "\"a\\\\\"", "'a\\\\'", "'\"'", "\"'\""] {
@@ -99,7 +99,7 @@ pub fn instances() -> Vec<Inst> {
     for t in ["pragma a b", "#pragma a b", "pragma\ta", "pragma é√ x"] {
         v.push(Inst { text: t.into(), expect: vec![("PRAGMA".into(), t.into())], line: true, header: false });
     }
-    for t in ["@ann a b", "@a", "@é 1", "@ann é√変"] {
+    for t in ["@ann a b", "@a", "@é 1", "@ann é√変", "@QPU fast", "@X 1", "@IBM.layout 0 1", "@A_b c", "@Q1 on", "@_x", "@U"] {
         v.push(Inst { text: t.into(), expect: vec![("ANNOTATION".into(), t.into())], line: true, header: false });
     }
     for t in ["OPENQASM 3.0", "OPENQASM 3", "OPENQASM  2.0", "OPENQASM\t3.1"] {
